@@ -8,7 +8,8 @@
   driver's replies (sort what came out of dict/set; properties by key; undirected edges as (min,max)).
 * `gen_history` – seeded operation histories over a small alphabet.
 
-Values on the wire: str | null | [v, v].  Properties: JSON object.  Imported graphs: {"nodes":[props…],
+Values on the wire: any JSON value without floats (str | null | int | bool | list | dict); the Lean side keeps
+str / null / int / bool / 2-element lists structurally and every other list or dict as canonical JSON text.  Properties: JSON object.  Imported graphs: {"nodes":[props…],
 "edges":[[i,j,props]…]} by node position (the keys of the nx.Graph handed to the store are chosen by the
 harness to collide with stored internal ids; the model never sees them).
 """
@@ -280,6 +281,15 @@ CLASSES = ["NetworkNode", "Link", "ConnectionPoint"]
 RELS = ["has", "connects"]
 FREE = ["p", "q"]
 VALS = ["x", "y", ""]
+# what an update may be handed besides a string: None, falsy scalars, ints, bools, lists (2 elements = what merge_nodes'
+# 'combine' writes; other lengths), dicts.  No floats (never compared through text).
+ODD_VALS = [None, None, None, 0, False, 1, True, -3, ["x", "y"], ["a", "b", "c"], [], {"k": "v"}, {}, [None, 0], ""]
+
+
+def gen_val(rng, p_odd=0.3):
+    """a property value for an update: mostly strings, sometimes anything else the API would be handed"""
+    import copy
+    return copy.deepcopy(rng.choice(ODD_VALS)) if rng.random() < p_odd else rng.choice(VALS)
 
 MUTATORS = ["add_node", "add_node", "add_node", "delete_node", "add_link", "add_link", "update_node_property",
             "unset_node_property", "update_nodes_property", "update_node_properties", "update_link_property",
@@ -321,7 +331,7 @@ def gen_igraph(rng, nids, g=None, direct=False, allow_bad=True):
 
 
 def gen_props(rng, keys, lo=0):
-    return {k: rng.choice(VALS) for k in rng.sample(keys, rng.randint(lo, min(2, len(keys))))}
+    return {k: gen_val(rng) for k in rng.sample(keys, rng.randint(lo, min(3, len(keys))))}
 
 
 def gen_op(rng, gids, nids, kinds=None, pnames=None, merge=False, direct=True):
@@ -342,15 +352,15 @@ def gen_op(rng, gids, nids, kinds=None, pnames=None, merge=False, direct=True):
         p = None if rng.random() < 0.5 else gen_props(rng, FREE + ["Name"] + ([CLASS] if rng.random() < 0.1 else []))
         return [op, g, nid(), rng.choice(RELS), nid(), p]
     if op == "update_node_property":
-        return [op, g, nid(), rng.choice(upd), rng.choice(VALS)]
+        return [op, g, nid(), rng.choice(upd), gen_val(rng, 0.25)]
     if op == "unset_node_property":
         return [op, g, nid(), rng.choice(pn + [GRAPH_ID])]
     if op == "update_nodes_property":
-        return [op, g, rng.choice(upd), rng.choice(VALS)]
+        return [op, g, rng.choice(upd), gen_val(rng, 0.25)]
     if op == "update_node_properties":
         return [op, g, nid(), gen_props(rng, upd, 0)]
     if op == "update_link_property":
-        return [op, g, nid(), nid(), rng.choice(RELS), rng.choice(upd), rng.choice(VALS)]
+        return [op, g, nid(), nid(), rng.choice(RELS), rng.choice(upd), gen_val(rng, 0.25)]
     if op == "unset_link_property":
         return [op, g, nid(), nid(), rng.choice(RELS), rng.choice(pn)]
     if op == "update_link_properties":
